@@ -343,3 +343,45 @@ def instance_tables_are_class_tables(repo, run, rule_id):
                                        t.attr, src(st.value)[:60] if isinstance(st, ast.Assign) else src(st)[:60]))
     if n == 0:
         raise AnalysisError("no store to self.tableau_* found in the integrators package")
+
+
+def returns_pass_through(repo, run, rule_id, rel, qual, anchors, what, consequence):
+    """must-pass-through, syntax-directed: every `return` of the function is preceded, on the way from the entry, by each anchor statement.  An anchor 'precedes' a
+    return when it is (or is contained, outside any If / For / While of its own, in) a statement that comes before the return in the same block or in the block of
+    one of the return's ancestors - a short-cut return placed before an anchor (a special case for 'nothing to do' steps) hands back whatever the instance held."""
+    rid = run.rule(rule_id, "%s: every return passes through %s" % (what, ", ".join(a[0] for a in anchors)), floor=len(anchors))
+    fn = repo.get(rel, qual)
+    run.analysed_fn(rel, fn)
+    rets = [st for st in walk_no_nested(fn) if isinstance(st, ast.Return)]
+    if not rets:
+        raise AnalysisError("%s: no return statement" % qual)
+
+    def contains_unconditionally(st, pred):
+        if pred(st):
+            return True
+        kids = []
+        if isinstance(st, ast.Try):
+            kids = st.body            # the body is entered on every path; what a handler then does is judged by the flow rules of the property
+        elif isinstance(st, ast.With):
+            kids = st.body
+        return any(contains_unconditionally(k, pred) for k in kids)
+
+    for r in rets:
+        for desc, pred in anchors:
+            node, found = r, False
+            while node is not fn and not found:
+                par = node._parent
+                for fld in ("body", "orelse", "finalbody"):
+                    blk = getattr(par, fld, None)
+                    if isinstance(blk, list) and node in blk:
+                        found = any(contains_unconditionally(s, pred) for s in blk[:blk.index(node)])
+                        # a return inside a try's handler / orelse has passed through the try body's first statements only if they completed: accept the body
+                        break
+                else:
+                    if isinstance(par, ast.ExceptHandler):
+                        tr = par._parent
+                        found = any(contains_unconditionally(s, pred) for s in tr.body)
+                node = par
+            run.judged(rid, "`%s` (line %d) is preceded by %s" % (src(r)[:50], r.lineno, desc), ok=found)
+            if not found:
+                run.report(rule_id, rel, r, "%s returns here without having passed through %s: %s" % (qual, desc, consequence), text="return bypasses %s" % desc)
